@@ -75,6 +75,9 @@ fn meas<R>(f: impl FnOnce() -> R) -> R {
 
 // ---------------------------------------------------------------- ledger
 
+/// the NaN-like element value (theories/System.v: nan_val)
+const NAN_VAL: u64 = 13;
+
 const K_DROP: u8 = 0;
 const K_CLONE: u8 = 1;
 const K_CALL: u8 = 2;
@@ -245,7 +248,8 @@ impl<const P: usize> PartialEq for EP<P> {
             log(format!("Q{}={}", self.s(), o.s()));
             fault_check(K_EQ);
         }
-        self.val == o.val
+        // the value 13 is NaN-like: equal to nothing, itself included
+        self.val == o.val && self.val != NAN_VAL
     }
 }
 impl<const P: usize> Eq for EP<P> {}
@@ -256,6 +260,10 @@ impl<const P: usize> PartialOrd for EP<P> {
             self.touch("cmp");
             log(format!("M{}?{}", self.s(), o.s()));
             fault_check(K_CMP);
+        }
+        // ... and unordered against everything under partial_cmp (Ord::cmp stays total)
+        if self.val == NAN_VAL || o.val == NAN_VAL {
+            return None;
         }
         Some(self.val.cmp(&o.val))
     }
@@ -1354,6 +1362,12 @@ fn pair_ops<const N: usize>(
         "from_array" => p_pairs(toks[1]).len(),
         "eq_slice" => p_pairs(toks[2]).len(),
         "clone_from" | "cmp" => return Some(same_n(buf, toks)),
+        "eq_self" => {
+            // the same object on both sides: an identity shortcut would answer true
+            let r: &CircularBuffer<N, E> = buf;
+            let b = meas(|| *r == *r);
+            return Some(format!("b{}", b as u8));
+        }
         _ => return None,
     };
     if N > 6 {
